@@ -296,7 +296,12 @@ func checkC20(c c20Case) verdict {
 		if err != nil || len(res) != 3 {
 			return bad(true, labels, "call %d %s(%v): the module stopped answering: %v", i, call.Fn, args, err)
 		}
-		if res[0] != res[1] {
+		bothErrors := func(a, b jsResult) bool { // two refusals agree, whatever their wording
+			as, aok := a.Value.(string)
+			bs, bok := b.Value.(string)
+			return a.Type == "string" && b.Type == "string" && aok && bok && strings.HasPrefix(as, "error:") && strings.HasPrefix(bs, "error:")
+		}
+		if res[0] != res[1] && !bothErrors(res[0], res[1]) {
 			return bad(true, labels, "call %d: globalThis.%s(%v) = %v but the package's export %s gives %v", i, call.Fn, args, res[0], call.Fn, res[1])
 		}
 		// the module stays usable
